@@ -113,7 +113,7 @@ def cases(tier, seed):
             continue
         for model in (('decay', 'inp', 'nonlin') if backend == 'default' else ('inp',)):
             for mult in (2, 3, 5):
-                for n in ((2, 4) if tier == 'quick' else (1, 2, 3, 4)):
+                for n in ((1, 2, 4) if tier == 'quick' else (1, 2, 3, 4)):
                     for j in range(1, mult):
                         for solver in solvers_b:
                             if solver == 'scipy' and model != 'decay':
@@ -244,6 +244,9 @@ def run_case(case):
         kw['inputs'] = {k: v.copy() for k, v in inputs.items()}
     if case['method']:
         kw['method'] = case['method']
+    if case['backend'] == 'fortran':
+        # an f2py extension module cannot be re-imported under the same name within one interpreter (as in C08)
+        kw['file_name'] = f"c03_{abs(hash(str(sorted(case.items())))) % 10**9}"
     if case['solver'] in ('scipy', 'diffrax'):
         kw['rtol'] = 1e-7
         kw['atol'] = 1e-9
